@@ -2028,7 +2028,10 @@ static void DecodeJMP(Word Code) {
 
     if (ChkArgCnt(1, 1)) {
         AdrLong = EvalStrIntExpressionWithFlags(&ArgStr[1], UInt20, &OK, &Flags);
-        Diff    = AdrLong - EProgCounter();
+        if (!OK) {
+            return;
+        }
+        Diff = AdrLong - EProgCounter();
 
         /* RMS 12: Repaired JMP.S forward-label as follows:
 
@@ -2141,7 +2144,10 @@ static void DecodeJSR(Word Code) {
 
     if (ChkArgCnt(1, 1)) {
         AdrLong = EvalStrIntExpressionWithFlags(&ArgStr[1], UInt20, &OK, &Flags);
-        Diff    = AdrLong - EProgCounter();
+        if (!OK) {
+            return;
+        }
+        Diff = AdrLong - EProgCounter();
         if (OpSize == eSymbolSizeUnknown) {
             OpSize = ((Diff >= -32767) && (Diff <= 32768)) ? 1 : 7;
         }
